@@ -258,6 +258,20 @@ def check(model, R, tier):
 
 
 def check_parameters(model, R, pf):
+    # parameters() is a pure function of the registries: a cached list kept on the module goes stale when a nested child changes later
+    writes = []
+    for n in body_walk(pf.node):
+        tg = n.targets if isinstance(n, ast.Assign) else ([n.target] if isinstance(n, (ast.AugAssign, ast.AnnAssign)) else [])
+        for t in tg:
+            base = t
+            while isinstance(base, (ast.Subscript, ast.Attribute)):
+                base = base.value
+            if isinstance(base, ast.Name) and base.id == pf.pos_params[0] and not isinstance(t, ast.Name):
+                writes.append(norm(n)[:60])
+        if isinstance(n, ast.Call) and norm(n.func) in ('setattr', 'object.__setattr__') and n.args and norm(n.args[0]) == pf.pos_params[0]:
+            writes.append(norm(n)[:60])
+    R.ob('C12.ONCE', pf.qualname, 'parameters() keeps no state on the module: %s' % (writes or 'no writes'), not writes,
+         'a parameter list cached on the module is not invalidated when a descendant registers / replaces a parameter later: optimizers and zero_grad built from it miss the new leaves', pf.loc)
     rets = [n for n in body_walk(pf.node) if isinstance(n, ast.Return)]
     if len(rets) != 1 or not isinstance(rets[0].value, ast.Name):
         R.incomplete_at('C12.ONCE', pf.qualname, 'parameters() does not return a single named list')
